@@ -26,7 +26,7 @@ def crash_key(crash, rule=None):
         return "typecheck-crash-parameter-type-name-assert"
     if crash["file"] == "type_check.py" and "NoneType" in exc and "which_type" in exc:
         return "typecheck-crash-unannotated-operand"
-    if fn == "_compute_constraints_of_existence_function":
+    if fn == "_compute_constraints_of_existence_function" and "existence_condition" in exc:
         return "bounds-crash-present-parameter"
     if rule == "enum-value-not-integer":
         return "typecheck-enum-value-type-unchecked"
@@ -101,7 +101,7 @@ def run(ctx):
             ctx.count("skipped-in-quick-tier:large-testdata-file")
             continue
         cases.append(("testdata:" + rel, open(p).read(), rel, None, None, {}))
-    n_base = 40 if ctx.thorough() else 4
+    n_base = 40 if ctx.thorough() else 3
     for i in range(n_base):
         base = gt.Base(ctx.rng, depth=ctx.rng.choice([1, 2, 2, 3]))
         c = base.case()
